@@ -15,8 +15,17 @@ Proof.
   - cbn [app] in H. injection H as -> H. injection Hl as Hl. destruct (IH a' Hl H) as (-> & ->). auto.
 Qed.
 
+Lemma ok_inj {A} (a b : A) : @Ok A a = Ok b -> a = b.
+Proof. intros H. injection H. auto. Qed.
+
 Lemma u32_inj a b : u32 a = u32 b -> (a mod 4294967296 = b mod 4294967296)%N.
 Proof. intros H. rewrite <- !N_u32_mod, H. reflexivity. Qed.
+
+Lemma u32_mod_eq a b : (a mod 4294967296 = b mod 4294967296)%N -> u32 a = u32 b.
+Proof.
+  intros H. unfold u32. rewrite <- (bits_of_mod 32 a), <- (bits_of_mod 32 b).
+  change (2 ^ N.of_nat 32)%N with 4294967296%N. rewrite H. reflexivity.
+Qed.
 
 Lemma u8_inj a b : (a < 256)%N -> (b < 256)%N -> u8 a = u8 b -> a = b.
 Proof. intros Ha Hb H. rewrite <- (N_u8 a Ha), <- (N_u8 b Hb), H. reflexivity. Qed.
@@ -110,7 +119,8 @@ Lemma data_bits_inj w1 w2 b :
 Proof.
   unfold data_bits, id_fields. intros Ev. rewrite <- Ev.
   pose proof (pk_bits_len w1) as L1. pose proof (pk_bits_len w2) as L2.
-  destruct (w_ver w1); try discriminate; intros [= <-] [= E].
+  destruct (w_ver w1); intros H1 H2; try (exfalso; discriminate H1).
+  all: apply ok_inj in H1; apply ok_inj in H2; rewrite <- H1 in H2; clear H1; rename H2 into E; symmetry in E.
   all: repeat match type of E with
        | u32 ?a ++ _ = u32 ?b ++ _ =>
            apply app_inj_len in E; [|rewrite !u32_len; reflexivity];
@@ -132,7 +142,7 @@ Proof.
   all: try reflexivity.
   all: try (f_equal; congruence).
   - (* v5 beta *)
-    apply u8_inj in E2; try apply mod256_bound. rewrite E1, E2, E3. split; [congruence|reflexivity].
+    apply u8_inj in E1; try apply mod256_bound. rewrite E0, E1, E3. reflexivity.
 Qed.
 
 Theorem address_injective w1 w2 a :
@@ -168,15 +178,13 @@ Proof.
   intros Ev Epk Ewc Eid.
   assert (Eb : data_bits w1 = data_bits w2).
   { unfold data_bits, id_fields in *. rewrite <- Ev in *. rewrite Epk.
-    destruct (w_ver w1); try reflexivity; injection Eid as E1; subst.
-    all: try (unfold u32; rewrite <- (bits_of_mod 32 (w_sub w1)), <- (bits_of_mod 32 (w_sub w2));
-              change (2 ^ N.of_nat 32)%N with 4294967296%N; rewrite E1; reflexivity).
-    - (* v5 beta *) injection H as E2 E3. unfold u32.
-      rewrite <- (bits_of_mod 32 (w_sub w1)), <- (bits_of_mod 32 (w_sub w2)),
-              <- (bits_of_mod 32 (w_net w1)), <- (bits_of_mod 32 (w_net w2)).
-      change (2 ^ N.of_nat 32)%N with 4294967296%N. rewrite E1, E2, E3. reflexivity.
-    - unfold u32. rewrite <- (bits_of_mod 32 (w_wid w1)), <- (bits_of_mod 32 (w_wid w2)).
-      change (2 ^ N.of_nat 32)%N with 4294967296%N. rewrite E1. reflexivity. }
+    destruct (w_ver w1); try reflexivity.
+    all: inversion Eid; clear Eid.
+    all: repeat match goal with
+                | E : (?a mod 4294967296 = ?b mod 4294967296)%N |- _ => rewrite (u32_mod_eq a b E); clear E
+                | E : Z.to_N _ = Z.to_N _ |- _ => rewrite E; clear E
+                end.
+    all: reflexivity. }
   unfold address, state_init, data_cell. rewrite Eb, Ev, Ewc. reflexivity.
 Qed.
 
@@ -189,10 +197,12 @@ Theorem resolved_subwallet pk v o w :
   new_wallet pk v o = Ok w ->
   w_sub w = match o_sub o with
             | Some s => s
-            | None => to_u32 (default_subwallet + opt_or (o_wc o) 0)
+            | None => to_u32 (default_subwallet + opt_or (o_wc o) 0%Z)
             end.
 Proof.
-  intros Hv. unfold new_wallet. destruct Hv as [->|[->|[->|[->| ->]]]]; intros [= <-]; cbn [w_sub];
+  intros Hv H.
+  assert (E : w_sub w = match new_wallet pk v o with Ok x => w_sub x | _ => 0%N end) by (rewrite H; reflexivity).
+  rewrite E. unfold new_wallet. destruct Hv as [->|[->|[->|[->| ->]]]]; cbn [w_sub opt_or];
     destruct (o_sub o); reflexivity.
 Qed.
 
@@ -200,21 +210,23 @@ Qed.
 Theorem default_subwallet_same_wallet pk v wc net :
   v = V3R1 \/ v = V3R2 \/ v = V4R1 \/ v = V4R2 \/ v = HLV2R2 ->
   new_wallet pk v (mkopt wc None net) =
-  new_wallet pk v (mkopt wc (Some (to_u32 (default_subwallet + opt_or wc 0))) net).
+  new_wallet pk v (mkopt wc (Some (to_u32 (default_subwallet + opt_or wc 0%Z))) net).
 Proof. intros [->|[->|[->|[->| ->]]]]; reflexivity. Qed.
 
 (* v5r1: wallet id = (1 | workchain:8 | 0:23) xor uint32(network id) *)
 Theorem v5r1_wallet_id pk o w :
   new_wallet pk V5R1 o = Ok w ->
-  w_wid w = N.lxor (2147483648 + Z.to_N (opt_or (o_wc o) 0 mod 256) * 8388608)
+  w_wid w = N.lxor (2147483648 + Z.to_N (opt_or (o_wc o) 0 mod 256)%Z * 8388608)%N
                    (to_u32 (opt_or (o_net o) mainnet_global_id)).
 Proof.
-  unfold new_wallet. intros [= <-]. cbn [w_wid]. f_equal.
-  unfold context_id. set (b := Z.to_N (opt_or (o_wc o) 0 mod 256)).
-  rewrite N_of_bits_cons, N_of_bits_app, N_u8 by apply mod256_bound.
-  rewrite !app_length. unfold zeros. rewrite !repeat_length, u8_len.
-  change (N_of_bits (repeat false 8 ++ repeat false 15)) with 0%N.
-  cbn [N.b2n]. change (2 ^ N.of_nat (8 + (8 + 15)))%N with 2147483648%N.
+  intros H.
+  assert (E : w_wid w = match new_wallet pk V5R1 o with Ok x => w_wid x | _ => 0%N end) by (rewrite H; reflexivity).
+  rewrite E. unfold new_wallet. cbn [w_wid]. f_equal.
+  unfold context_id. set (b := Z.to_N (opt_or (o_wc o) 0 mod 256)%Z).
+  rewrite !N_of_bits_app, !N_of_bits_zeros, N_u8 by apply mod256_bound.
+  rewrite !app_length, u8_len. unfold zeros. rewrite !repeat_length.
+  change (N_of_bits [true]) with 1%N.
+  change (2 ^ N.of_nat (8 + (8 + 15)))%N with 2147483648%N.
   change (2 ^ N.of_nat (8 + 15))%N with 8388608%N. lia.
 Qed.
 
@@ -224,7 +236,7 @@ Qed.
 Theorem v5r1_network_id_injective ctx n1 n2 : N.lxor ctx n1 = N.lxor ctx n2 -> n1 = n2.
 Proof.
   intros H. apply (f_equal (N.lxor ctx)) in H.
-  rewrite !N.lxor_assoc, !N.lxor_nilpotent, !N.lxor_0_l in H. exact H.
+  rewrite <- !N.lxor_assoc, !N.lxor_nilpotent, !N.lxor_0_l in H. exact H.
 Qed.
 
 (** *** NextMessageParams *)
